@@ -140,11 +140,45 @@ def describe(diag, lines, origin, fname=None):
             'rendered': diag.get('rendered', '')[:4000]}
 
 
+CACHE = os.path.join(VERIF, '.cache', 'verus')
+
+
 def verify_unit(unit_path, repo, tier='quick', twin=True):
     """returns result dict:
        status: 'verified' | 'failed' | 'undecided'
+
+    The unit is re-extracted and re-assembled from `repo` on EVERY call.  Only the solver run is memoised, keyed by
+    the sha256 of the assembled text (+ twin text, flags, verus version): the same text gives the same verdict, and
+    several properties share units.  Quick tier only; VERIF_NOCACHE=1 disables it; thorough never uses it.
     """
+    res = _verify_unit(unit_path, repo, tier, twin, probe_only=True)
+    if res is not None:
+        return res
+    return _verify_unit(unit_path, repo, tier, twin, probe_only=False)
+
+
+def _verify_unit(unit_path, repo, tier, twin, probe_only):
     os.makedirs(WORK, exist_ok=True)
+    use_cache = tier == 'quick' and not os.environ.get('VERIF_NOCACHE') and twin
+    if probe_only:
+        if not use_cache:
+            return None
+        try:
+            text, origin, meta = assemble(unit_path, repo, twin=False)
+            ttext, _, _ = assemble(unit_path, repo, twin=True)
+        except UnitError:
+            return None
+        key = hashlib.sha256((text + '\0' + ttext + '\0' + str(meta.get('rlimit')) + str(meta.get('nolifetime')) + 'v0.2026.09.13').encode()).hexdigest()
+        cp = os.path.join(CACHE, key + '.json')
+        if os.path.exists(cp):
+            try:
+                r = json.load(open(cp))
+                r['cached'] = True
+                r['unit_path'] = unit_path
+                return r
+            except Exception:
+                return None
+        return None
     res = {'unit_path': unit_path, 'status': None, 'failures': [], 'undecided_reason': None}
     t0 = time.time()
     try:
@@ -234,6 +268,14 @@ def verify_unit(unit_path, repo, tier='quick', twin=True):
         except UnitError as e:
             res.update(status='undecided', undecided_reason='twin assemble: %s' % e)
     res['wall_s'] = time.time() - t0
+    if use_cache and res.get('status') in ('verified', 'failed') and res.get('sha256'):
+        try:
+            ttext, _, _ = assemble(unit_path, repo, twin=True)
+            key = hashlib.sha256((text + '\0' + ttext + '\0' + str(meta.get('rlimit')) + str(meta.get('nolifetime')) + 'v0.2026.09.13').encode()).hexdigest()
+            os.makedirs(CACHE, exist_ok=True)
+            json.dump(res, open(os.path.join(CACHE, key + '.json'), 'w'))
+        except Exception:
+            pass
     return res
 
 
